@@ -312,3 +312,6 @@ def replay(witness):
     except Exception:  # pylint: disable=broad-except
         return True
     return False
+
+
+LEVEL_TEXT_EXT = ('a regex AST + total backtracking matcher (Rx) whose rendering is pinned by the kernel to the sources of all 37 patterns of parser.py regenerated on every run; every hand-written scanner of the model (line splitter, comment / continuation tests, the 17 statement patterns, the 11 expression token patterns, the escape substitutions) is proved equal to the reading of the engine match for ALL texts; parseScript_fully_regex_driven: Parser.parseScript = the regex-driven parser over those ASTs, every input, no side condition. CPython re = Rx.m on this fragment is tied by the rx-engine stream (every pattern x adversarial texts, every group span).')
